@@ -138,6 +138,18 @@ def make_int_unops():
     return ents
 
 
+def _bits_twice(k, w):
+    x = k.S("x")
+    x.to_bits(w)
+    return x.to_bits(w)
+
+
+def _bits_wide_narrow(k, w1, w2):
+    x = k.S("x")
+    x.to_bits(w1)
+    return x.to_bits(w2)
+
+
 def _pydivmod(a, b):
     return (a // b, a % b)
 
@@ -174,6 +186,12 @@ def make_widths(n):
                           (lambda k, w=w: k.rt.LinComb.from_bits(k.S("x").to_bits(w))), ("x",),
                           ref=(lambda k: k.v("x")), dom=(lambda k, w=w: nonneg_bits(k.v("x"), w)),
                           tags={"int", "bits", "roundtrip", "w=%d" % w}))
+    ents.append(Entry("int_to_bits_twice", lambda k: _bits_twice(k, 3), ("x",),
+                      ref=lambda k: [(k.v("x") >> i) & 1 for i in range(3)],
+                      dom=lambda k: nonneg_bits(k.v("x"), 3), tags={"int", "bits", "to_bits", "reuse"}))
+    ents.append(Entry("int_to_bits_narrow_after_wide", lambda k: _bits_wide_narrow(k, n + 1, 2), ("x",),
+                      ref=lambda k: [(k.v("x") >> i) & 1 for i in range(2)],
+                      dom=lambda k: nonneg_bits(k.v("x"), 2), tags={"int", "bits", "to_bits", "reuse"}))
     ents.append(Entry("int_to_bits_default", lambda k: k.S("x").to_bits(), ("x",),
                       ref=lambda k: [(k.v("x") >> i) & 1 for i in range(k.n)],
                       dom=lambda k: nonneg_bits(k.v("x"), k.n), tags={"int", "bits", "to_bits"}))
@@ -208,6 +226,14 @@ def make_asserts(n):
         ents.append(Entry("assert_positive_w%d" % w, (lambda k, w=w: _assertw(k, w)), ("x",),
                           ref=(lambda k, w=w: nonneg_bits(k.v("x"), w)),
                           dom=lambda k: fits(k.v("x"), k.n + 2), tags={"assert", "positive", "w=%d" % w}))
+    # the same object decomposed twice (a cache on the object, if someone adds one, must not weaken the second use)
+    ents.append(Entry("assert_positive_after_guarded_bits", lambda k: _reuse_guarded(k, 2), ("x", "g"),
+                      ref=lambda k: nonneg_bits(k.v("x"), 2), dom=None,
+                      assume=lambda k: [(k.v("g") == 0) | (k.v("g") == 1)], tags={"assert", "positive", "reuse"}))
+    ents.append(Entry("assert_positive_after_wider_bits", lambda k: _reuse_wider(k, n + 1, 2), ("x",),
+                      ref=lambda k: nonneg_bits(k.v("x"), 2), dom=None, tags={"assert", "positive", "reuse"}))
+    ents.append(Entry("assert_positive_after_same_bits", lambda k: _reuse_wider(k, 3, 3), ("x",),
+                      ref=lambda k: nonneg_bits(k.v("x"), 3), dom=None, tags={"assert", "positive", "reuse"}))
     ents.append(Entry("assert_range_cc", lambda k: _assert_range(k, 1, 5), ("x",),
                       ref=lambda k: (k.v("x") >= 1) & (k.v("x") < 5),
                       dom=lambda k: fits(k.v("x"), k.n - 1), tags={"assert", "range"}))
@@ -224,6 +250,21 @@ def make_asserts(n):
                       ref=lambda k: (k.v("x") == 0) | (k.v("x") == 1),
                       dom=lambda k: fits(k.v("x"), k.n), tags={"assert", "decl", "bool"}))
     return ents
+
+
+def _reuse_guarded(k, w):
+    x = k.S("x")
+    g = k.S("g")
+    k.rt.guarded(g)(lambda: x.to_bits(w))()
+    x.assert_positive(w)
+    return [x, g]
+
+
+def _reuse_wider(k, w1, w2):
+    x = k.S("x")
+    x.to_bits(w1)
+    x.assert_positive(w2)
+    return [x]
 
 
 def _decl_pub(k):
